@@ -16,6 +16,7 @@ import Nsq.Model.ViewOrder
   fan kind=k topic=h channel=h node=sym lk=… na=… nd=…  → C17: `AdminProg.runAction`: result, number of errors in the ErrList, requests phase by phase
   strfn canon|esc <hex>       → C17: `AdminGate.canon` (CanonicalMIMEHeaderKey) / `AdminFanout.esc` (url.QueryEscape), hex
   getv1 https=b mode=n        → C18: `Fetch.getV1` against a stub behaviour: outcome, requests seen on the plain / TLS port
+  add topic|channel …         → C18: `TopicAgg.addAll` / `ChanAgg.add` on reports given directly (`AggregateWire.addLine`)
 -/
 open Nsq Nsq.Line Nsq.Model.AdminGate
 
@@ -249,6 +250,7 @@ def stepLine (line : String) : String :=
   | "strfn" :: toks => E7.strfn toks
   | "lat" :: toks => E7.lat toks
   | "less" :: toks => E7.less toks
+  | "add" :: toks => Nsq.Model.AggregateWire.addLine toks
   | "latval" :: _ => "marshal-ok"   -- no model of the float values: the line states what the property demands
   | _ => "bad-op"
 
